@@ -27,7 +27,7 @@ RULE = ('one case = one history (sequence of <= N operations drawn by a Hypothes
         'model state paths (sequence of frame-stack shapes x selection vectors x mute depth)')
 ASSUMPTIONS = [
     'fault-free, history-driven use of the technique: there is no schedule or fault dimension in this property; the hidden variable is the order in which definitions and directives are encountered',
-    'excluded because the statement / requirement document do not fix their meaning: undefined symbols inside #if expressions, string comparisons, chains left open at end of file, conditionals around #include (covered by C17), #elif after #ifdef/#ifndef (rejected by design)',
+    'excluded because the statement / requirement document do not fix their meaning: undefined symbols inside #if expressions, string comparisons, chains left open at end of file, conditionals around #include (covered by C17)',
     'ill-formed or failing steps are side probes (prefix + offending line must be rejected) and are not kept in the history',
     'images are compared as sparse address->byte maps with default fill 0 (trailing fill produced by non-byte lines is C03 business)',
 ]
@@ -99,12 +99,17 @@ class CondModel:
     def num(self, text):
         import re
         t = self.expand(text)
-        if not re.fullmatch(r'\d+( ?[+-] ?\d+)*', t.strip()):
+        # sums/differences, optionally followed by ONE shift or mask operator (same precedence in Python and here)
+        if not re.fullmatch(r'\d+( ?[+-] ?\d+)*( ?(>>|<<|&|\|) ?\d+)?', t.strip()):
             raise KeyError(t)
-        return int(eval(t, {'__builtins__': {}}, {}))     # noqa: S307 - digits, + and - only
+        return int(eval(t, {'__builtins__': {}}, {}))     # noqa: S307 - digits and + - >> << & | only
 
     def sides(self, cond):
         t = [str(x) for x in cond['terms']]
+        if cond['form'] == 'bare_bits':
+            return f'{t[0]} {cond["bop"]} {t[1]}', '!=', '0'
+        if cond['form'] == 'cmp_bits':
+            return f'{t[0]} {cond["bop"]} {t[1]}', cond['op'], t[2]
         if cond['form'] == 'cmp':
             return t[0], cond['op'], t[1]
         if cond['form'] == 'bare':
@@ -131,6 +136,10 @@ class CondModel:
     @staticmethod
     def cond_text(cond):
         t = [str(x) for x in cond['terms']]
+        if cond['form'] == 'bare_bits':
+            return f'{t[0]} {cond["bop"]} {t[1]}'
+        if cond['form'] == 'cmp_bits':
+            return f'{t[0]} {cond["bop"]} {t[1]} {cond["op"]} {t[2]}'
         if cond['form'] == 'cmp':
             return f'{t[0]} {cond["op"]} {t[1]}'
         if cond['form'] == 'bare':
@@ -174,8 +183,10 @@ class CondModel:
                 self.probes['chain_nested_in_unselected'] = self.probes.get('chain_nested_in_unselected', 0) + 1
             return 'keep', [('#ifndef ' if op['neg'] else '#ifdef ') + op['name']]
         if k == 'elif':
-            if not self.frames or self.frames[-1][3] != 'if' or self.frames[-1][4] or not self.cond_ok(op['cond']):
+            if not self.frames or self.frames[-1][4] or not self.cond_ok(op['cond']):
                 return None
+            if self.frames[-1][3] == 'ifdef':
+                self.probes['elif_in_ifdef_chain'] = self.probes.get('elif_in_ifdef_chain', 0) + 1
             f = self.frames[-1]
             if f[1]:
                 self.probes['elif_after_taken_branch'] = self.probes.get('elif_after_taken_branch', 0) + 1
@@ -452,7 +463,13 @@ def make_machine(stats, box):
 
     @st.composite
     def cond(draw):
-        form = draw(st.sampled_from(['cmp', 'cmp', 'bare', 'bare_minus', 'cmp_sum']))
+        form = draw(st.sampled_from(['cmp', 'cmp', 'bare', 'bare_minus', 'cmp_sum', 'bare_bits', 'cmp_bits']))
+        if form == 'bare_bits':
+            return {'form': form, 'terms': [draw(term), draw(st.integers(min_value=0, max_value=4))],
+                    'bop': draw(st.sampled_from(['>>', '<<', '&', '|']))}
+        if form == 'cmp_bits':
+            return {'form': form, 'terms': [draw(term), draw(st.integers(min_value=0, max_value=4)), draw(small)],
+                    'bop': draw(st.sampled_from(['>>', '<<', '&'])), 'op': draw(st.sampled_from(CMP))}
         if form == 'cmp':
             return {'form': form, 'terms': [draw(term), draw(term)], 'op': draw(st.sampled_from(CMP))}
         if form == 'bare':
@@ -619,6 +636,50 @@ def make_machine(stats, box):
             self.do({'op': 'endif'})
             self.marker_()
             self.do({'op': 'unmute', 'word': '#unmute'})
+            self.marker_()
+
+        @rule(name=sym, z=st.sampled_from(ZONES), v=small)
+        def idiom_definitions_while_muted(self, name, z, v):
+            """#mute / #define S / #create_memzone Z / #unmute : muting hides bytes, not definitions"""
+            m = self.model
+            if m is None or not m.active() or len(m.frames) >= 3:
+                return
+            self.do({'op': 'mute'})
+            self.do({'op': 'define', 'name': name, 'value': v})
+            self.do({'op': 'mkzone', 'name': z, 'idx': ZONES.index(z)})
+            self.marker_()
+            self.do({'op': 'unmute', 'word': '#unmute'})
+            self.do({'op': 'ifdef', 'name': name, 'neg': False})
+            self.marker_()
+            self.do({'op': 'else'})
+            self.marker_()
+            self.do({'op': 'endif'})
+            self.marker += 1
+            self.do({'op': 'usezone', 'name': z, 'k': 1 + (self.marker * 7) % 200})
+            self.do({'op': 'usezone', 'name': 'GLOBAL', 'k': 3})
+
+        @rule(c1=cond(), c2=cond(), opener=st.sampled_from(['if0', 'else']))
+        def idiom_elif_chain_in_unselected_code(self, c1, c2, opener):
+            """a whole #if/#elif/#else chain nested in unselected code: none of its branches may be selected"""
+            m = self.model
+            if m is None or not m.active() or len(m.frames) >= 2:
+                return
+            if opener == 'if0':
+                self.do({'op': 'if', 'cond': {'form': 'cmp', 'terms': [0, 1], 'op': '=='}})
+            else:
+                self.do({'op': 'if', 'cond': {'form': 'cmp', 'terms': [1, 1], 'op': '=='}})
+                self.do({'op': 'else'})
+            self.do({'op': 'if', 'cond': c1})
+            self.marker_()
+            self.do({'op': 'elif', 'cond': {'form': 'cmp', 'terms': [2, 2], 'op': '=='}})
+            self.marker_()
+            self.do({'op': 'elif', 'cond': c2})
+            self.marker_()
+            self.do({'op': 'else'})
+            self.marker_()
+            self.do({'op': 'endif'})
+            self.marker_()
+            self.do({'op': 'endif'})
             self.marker_()
 
         def marker_(self):
